@@ -150,6 +150,18 @@ def _focus_sources():
             out.append(("f2003", "exec", list(grp)))
         for grp in zoo.EXEC_GROUPS_F08:
             out.append(("f2008", "exec", list(grp)))
+        # snippets harvested once from the string literals of fparser's own unit tests (those
+        # the parser accepts): one or more per grammar rule
+        import json as _json
+
+        hpath = os.path.join(os.path.dirname(zoo.__file__), "zoo_harvest.json")
+        if os.path.exists(hpath):
+            with open(hpath) as fobj:
+                harvest = _json.load(fobj)
+            for ent in harvest.get("exec", []):
+                out.append((ent["std"], "exec", ent["lines"]))
+            for ent in harvest.get("program", []):
+                out.append((ent["std"], "program", ent["lines"]))
         _FOCUS = out
     return _FOCUS
 
@@ -185,7 +197,9 @@ def _focused_case(run_seed, cfg, case):
     r = rng.derive(cfg.get("batch_seed", 0), "focus-order", k)
     if rng.derive(run_seed, "focus-std").random() < 0.4:
         std = "f2008"
-    head = "subroutine zz(u)\n" if where == "spec" else "subroutine zz(u)\nreal :: x\n"
+    head = {"spec": "subroutine zz(u)\n", "exec": "subroutine zz(u)\nreal :: x\n",
+            "program": ""}[where]
+    tail = "" if where == "program" else "\nend subroutine zz\n"
     body = "\n".join(lines)
     toks = damage.tokenize(body)
     sig = [i for i, t in enumerate(toks) if t.strip() and t != "\n"]
@@ -216,7 +230,7 @@ def _focused_case(run_seed, cfg, case):
         else:
             new[i] = op.split(":", 1)[1]
         muts.append({"kind": "focus_" + op.split(":")[0], "token": i, "changed": True})
-    text = head + "".join(new) + "\nend subroutine zz\n"
+    text = head + "".join(new) + (tail or "\n")
     if rng.derive(run_seed, "focus-form").random() < 0.25:
         # the same damaged statement in fixed source form (statement field from column 7)
         text = "".join("      " + ln + "\n" for ln in text.split("\n") if ln)
